@@ -43,8 +43,9 @@ impl FromStr for Action {
                 }
             }
         } else if chars.len() == 3 {
-            if let Ok(square) = s[..2].parse::<Square>() {
-                if let Ok(dir) = s[2..].parse::<Direction>() {
+            let split = s.len() - chars[2].len_utf8();
+            if let Ok(square) = s[..split].parse::<Square>() {
+                if let Ok(dir) = s[split..].parse::<Direction>() {
                     return Ok(Action::Move(square, dir));
                 }
             }
